@@ -271,7 +271,39 @@ def run_case(case):
                 continue
             if integ == 'ode':
                 counters['ode_runs'] += 1
-                mode = rr.choice(['coupled-bs', 'free-bs', 'free-other'])
+                mode = rr.choice(['coupled-bs', 'free-bs', 'free-other', 'free-stiff', 'free-stiff'])
+                if mode == 'free-stiff':
+                    # an oscillator that is FAST compared with the host's step: the ODE is then advanced by several Bulirsch-Stoer sub-steps
+                    # per N-body step and has to arrive exactly at the end of each step (closed-form solution, no reference run needed)
+                    host = rr.choice(['whfast', 'leapfrog', 'ias15', 'saba', 'mercurius'])
+                    nst = 40
+                    dth = T / nst
+                    om = rr.choice([0.3, 3.0, 12.0, 40.0]) / abs(dth)
+                    for tol in (1e-6, 1e-10):
+                        sim, _k = build(host if host != 'ias15' else 'ias15', {'ri_bs.eps_rel': tol, 'ri_bs.eps_abs': tol}, nst)
+                        if host == 'ias15':
+                            sim.dt = dth
+                        ode_ = sim.create_ode(length=2, needs_nbody=False)
+
+                        def der_(odep, yDot, y, t, om=om):
+                            yDot[0] = y[1]
+                            yDot[1] = -om * om * y[0]
+                        ode_.derivatives = der_
+                        ode_.y[0], ode_.y[1] = 1.0, 0.0
+                        if host == 'ias15':
+                            sim.integrate(T, exact_finish_time=1)
+                        else:
+                            sim.steps(nst)
+                        tt = sim.t
+                        e = max(abs(ode_.y[0] - math.cos(om * tt)), abs(ode_.y[1] / om + math.sin(om * tt)))
+                        # global error of an accepted-tolerance integrator over om*T radians
+                        allow = 1e3 * tol * max(1.0, om * abs(tt)) + 1e-10
+                        counters['ode_stiff_runs'] = counters.get('ode_stiff_runs', 0) + 1
+                        if gt(e, allow):
+                            add('converge:user-ode:free-stiff', '%s host %s om*dt=%.1f tol %.0e: ODE state at t=%g off by %.3e (allowed %.1e)' % (desc0, host, om * abs(dth), tol, tt, e, allow))
+                        del ode_
+                    cells.add(json.dumps(['ode', mode, host]))
+                    continue
                 if mode == 'coupled-bs':
                     host, which, want = 'bs', 'coupled', refz[0:2]
                 elif mode == 'free-bs':
